@@ -381,12 +381,13 @@ func (parameter *Parameter) Validate(ctx context.Context, opts ...ValidationOpti
 		}
 	}
 
+	if parameter.Example != nil && parameter.Examples != nil {
+		return fmt.Errorf("parameter %q example and examples are mutually exclusive", parameter.Name)
+	}
+
 	if schema := parameter.Schema; schema != nil {
 		if err := schema.Validate(ctx); err != nil {
 			return fmt.Errorf("parameter %q schema is invalid: %w", parameter.Name, err)
-		}
-		if parameter.Example != nil && parameter.Examples != nil {
-			return fmt.Errorf("parameter %q example and examples are mutually exclusive", parameter.Name)
 		}
 
 		if vo := getValidationOptions(ctx); vo.examplesValidationDisabled {
